@@ -109,7 +109,12 @@ func TestVerifC33(t *testing.T) {
 			delivered += len(res)
 			outsCoq = append(outsCoq, cqList(tags))
 			outsDesc = append(outsDesc, tagsD)
-			heldCoq = append(heldCoq, cqPair(cqZ(int64(len(ro.pending))), cqZ(int64(ro.pendingBytes))))
+			// what is really held back: the payload bytes of the pending subgroups (not the reorderer's own counter)
+			heldBytes := 0
+			for _, p := range ro.pending {
+				heldBytes += subGroupPayloadSize(p)
+			}
+			heldCoq = append(heldCoq, cqPair(cqZ(int64(len(ro.pending))), cqZ(int64(heldBytes))))
 		}
 		class := "in-order"
 		switch {
